@@ -857,6 +857,6 @@ def BLOCK_SCRIPT(K=0, horizon=5, ops=None):
     if ops is None:
         ops = [('addres', 'r', -1), ('addres', 'r', 1), ('block', 'K', True), ('block', 'K', False)]
     s = spec(f'BLOCKSCRIPT[K{K}]', devs, horizon, ops, K, pools={'r': 1})
-    s['script'] = [[1.25, 2, ['block', 'M1', True]], [1.625, 2, ['block', 'M1', False]],
-                   [2.25, 2, ['block', 'M1', True]], [2.75, 2, ['block', 'M1', False]]]
+    s['script'] = [[0.75, 2, ['block', 'M1', True]], [1.25, 2, ['block', 'M1', False]],
+                   [2.75, 2, ['block', 'M1', True]], [3.125, 2, ['block', 'M1', False]]]
     return s
